@@ -178,3 +178,12 @@ func safeCompile(src string) (e *xpath.Expr, err error) {
 	}()
 	return xpath.Compile(src)
 }
+
+func safeCompileNS(src string, m map[string]string) (e *xpath.Expr, err error) {
+	defer func() {
+		if x := recover(); x != nil {
+			e, err = nil, fmt.Errorf("CompileWithNS panicked: %v", x)
+		}
+	}()
+	return xpath.CompileWithNS(src, m)
+}
